@@ -32,7 +32,17 @@ RULE = ("Transactions with every (inputs, outputs) pair in 1..6 x 0..6, every in
         "check_sig_legacy / check_sig_segwit, Tx.sign_input and the four sign_* methods, and sequences of sign_input "
         "calls on ONE object followed by verify_input of every input, each compared with the extracted model "
         "(Model/SighashSig.v with the primitives of Model/Pecc.v on secp256k1); predicates: the library's signatures "
-        "verify under the reference digest of the hash type they carry, signing one input never invalidates another.")
+        "verify under the reference digest of the hash type they carry, signing one input never invalidates another.  "
+        "OBJECTS BUILT THROUGH THE CONSTRUCTORS' DEFAULTS: every transaction value of this module is built either with "
+        "every field passed explicitly or — where a value equals the documented default — by TxIn(prev_tx, prev_index) "
+        "alone (Script(), Sequence(), a never-assigned Witness()), Script() for an empty script, Tx(...) without "
+        "locktime, chosen from the content of the value; unsigned transactions (no witness, no scriptSig) of every "
+        "witness-dependent kind; the edit alphabet includes IN-PLACE list operations (append / insert / extend / += / "
+        "pop / del / slice assignment / reverse / clear) on witness.items, script_sig.commands, output and spent "
+        "script commands, tx_ins and tx_outs; history_world runs histories over SEVERAL Tx objects (five ways of "
+        "building them, incl. Tx.parse and bare constructors filled in place; objects made before and after the "
+        "edits of the others) and compares every digest with the reference for that object's own current fields; "
+        "where nothing defines a digest (p2wsh without witness, p2sh without redeem script) Tx.sig_hash must fail.")
 TRUSTED = ["hashlib sha256 (hash256, sha256 and the tagged hashes are universally quantified functions in the theorems)",
            "the Python reference implementation of the three algorithms in harness/props/c05.py (test oracle only)",
            "modelled, not verified: TxIn.value()/script_pubkey() are taken as given inputs (pre-set _value/_script_pubkey, "
